@@ -174,7 +174,44 @@ def gen_history(rng, cfg):
         f = rng.choice(live)
         m = files[f]
         r = rng.random()
-        if r < 0.34:
+        if r < 0.05:
+            # motif: the handle's block buffer holds the block that contains the new end of
+            # file; shrink inside that block, then grow again through the same handle
+            op = "shrink-regrow"
+            ensure_open(f)
+            blk = rng.choice([0, 1, 11, 12, rng.randrange(0, 40)])
+            if kind == "i":
+                blk = 0
+            ln = rng.choice([bs, bs - 1, bs // 2, bs + 7, 2 * bs])
+            seedctr += 1
+            emit("seek %d %d 0" % (f, blk * bs), None)
+            emit("write %d %d %d" % (f, ln, seedctr), None)
+            last_blk = (blk * bs + ln - 1) // bs
+            if rng.random() < 0.4:
+                # make the buffer hold that block by reading from it instead
+                emit("seek %d %d 0" % (f, last_blk * bs + rng.randrange(bs // 2)), None)
+                emit("read %d %d" % (f, rng.randrange(1, bs // 2)), None)
+            lo = last_blk * bs + 1
+            hi = min(blk * bs + ln - 1, last_blk * bs + bs - 2)
+            cut = rng.randrange(lo, max(lo + 1, hi))
+            emit("trunc %d %d" % (f, cut), None)
+            m.size = cut
+            room = (last_blk + 1) * bs - cut
+            if rng.random() < 0.6 and room > 2:
+                gap = rng.randrange(1, room - 1)
+                wl = rng.randrange(1, max(2, room - gap))
+                seedctr += 1
+                emit("seek %d %d 0" % (f, cut + gap), None)
+                emit("write %d %d %d" % (f, wl, seedctr), None)
+                m.size = cut + gap + wl
+            else:
+                m.size = cut + rng.randrange(1, 2 * bs)
+                emit("trunc %d %d" % (f, m.size), None)
+            emit("seek %d %d 0" % (f, last_blk * bs), None)
+            emit("read %d %d" % (f, 2 * bs), None)
+            stats["mapping_changing"] += 1
+            stats["unaligned_overwrite"] += 1
+        elif r < 0.34:
             op = "write"
             ensure_open(f)
             off, ln = pick_off(), pick_len()
